@@ -5,3 +5,24 @@
 
 // wrappers for the srvx property group
 use super::m;
+
+use m::server::ServerStats;
+
+/// The eleven counters of `ServerStats` in declaration order:
+/// received, accepted, denied, ignored, rate_limited, response_send_errors,
+/// nts_received, nts_accepted, nts_denied, nts_rate_limited, nts_nak.
+pub fn stats_vector(s: &ServerStats) -> [u64; 11] {
+    [
+        s.received_packets.get(),
+        s.accepted_packets.get(),
+        s.denied_packets.get(),
+        s.ignored_packets.get(),
+        s.rate_limited_packets.get(),
+        s.response_send_errors.get(),
+        s.nts_received_packets.get(),
+        s.nts_accepted_packets.get(),
+        s.nts_denied_packets.get(),
+        s.nts_rate_limited_packets.get(),
+        s.nts_nak_packets.get(),
+    ]
+}
